@@ -113,6 +113,9 @@ pub struct WalkOpts {
     /// state's own has_move is called with foreign boards. Nothing a query computes may depend on what
     /// was asked before.
     pub interfere: bool,
+    /// keep taking offered actions after a result has been reported (the engine goes on offering them,
+    /// and the repository's own tests act on finished positions); at most 12 more actions
+    pub play_on: bool,
 }
 
 #[derive(Clone, Copy, Debug, PartialEq, Eq)]
@@ -787,6 +790,7 @@ pub fn walk(
     }
     let mut i = 0usize;
     let mut nodes_used = 0usize;
+    let mut after_result = 0usize;
     let ended_by;
     loop {
         let v = View::new(&eng, &mo, false);
@@ -857,8 +861,13 @@ pub fn walk(
         // ---- steering: stop at a reported result / empty list / end of input
         match v.terminal() {
             Ok(Some(_)) => {
-                ended_by = "result";
-                break;
+                if opts.play_on && after_result < 12 {
+                    after_result += 1;
+                    st.bump("actions_taken_after_a_reported_result");
+                } else {
+                    ended_by = "result";
+                    break;
+                }
             }
             Ok(None) => {}
             Err(_) => {
